@@ -90,7 +90,7 @@ var clauseKW = map[string]bool{"requires": true, "ensures": true, "modifies": tr
 	"params": true, "vars": true, "pure": true, "trusted": true, "bounded": true, "assumes": true, "maypanic": true, "callers": true}
 
 var headRe = regexp.MustCompile(`^(func|type|lemma|canary)\s+(.*)$`)
-var tagsRe = regexp.MustCompile(`\[([A-Z0-9, ]+)\]\s*$`)
+var tagsRe = regexp.MustCompile(`\[(C[0-9]+(?:\s*,\s*C[0-9]+)*)\]`)
 var labelRe = regexp.MustCompile(`^(requires|ensures|assumes|callers|invariant|decreases)(\[[^\]]*\])?\s*(.*)$`)
 
 func parseTags(s string) (string, []string) {
@@ -105,7 +105,7 @@ func parseTags(s string) (string, []string) {
 			tags = append(tags, t)
 		}
 	}
-	return strings.TrimSpace(s[:m[0]]), tags
+	return strings.TrimSpace(s[:m[0]] + " " + s[m[1]:]), tags
 }
 
 // ParseContractFile reads the //@ lines of one contract file.
